@@ -1,5 +1,6 @@
 import Resolvo.Oracles
 import Resolvo.Enc.ReferenceProofs
+import Resolvo.MDet.CheckedProofs
 /-!
 # C08 — direct requirements get their best candidate whenever that is possible
 
@@ -7,7 +8,9 @@ import Resolvo.Enc.ReferenceProofs
 and some valid solution contains the first-ranked candidate of each simultaneously") with the
 verified DPLL on the reference encoding extended by one unit clause per first choice.
 Proved here: that extension is exact — the extended formula is satisfiable iff a valid selection
-containing all the first choices exists.
+containing all the first choices exists — and **the property itself** for every solver history that the
+decision-guarded abstract system accepts (`best_direct_accepted`; the argument is in `Abs/BestDirect.lean`) and
+for the checked model (`best_direct_checked`).
 -/
 namespace Resolvo.C08
 open Resolvo Resolvo.Sat
@@ -31,5 +34,123 @@ theorem with_units_iff (U : Universe) (P : Problem) (hw : CandsKnown U) (fcs : L
     refine ⟨fun s => decide (s ∈ sel), ?_⟩
     rw [evalCnf_append, Bool.and_eq_true, evalCnf_units]
     exact ⟨encodeAll_of_valid U P.hard sel hv, fun c hcm => decide_eq_true (hc c hcm)⟩
+
+/-! ## The property itself -/
+
+/-- provider contract: a listed candidate carries its package's name -/
+def CandNames (U : Universe) : Prop := ∀ n p, U.pkg? n = some p → ∀ c ∈ p.cands, U.nameOf c = n
+
+def candNamesB (U : Universe) : Bool := U.pkgs.all (fun np => np.2.cands.all (fun c => U.nameOf c == np.1))
+
+theorem candNamesB_sound (U : Universe) (h : candNamesB U = true) : CandNames U := by
+  intro n p hp c hc
+  unfold candNamesB at h
+  have hmem : (n, p) ∈ U.pkgs := mem_of_lookup _ _ _ hp
+  have := List.all_eq_true.mp (List.all_eq_true.mp h (n, p) hmem) c hc
+  simpa using this
+
+theorem candsOf_sub (U : Universe) (vs c : Nat) (h : c ∈ U.candsOf vs) :
+    ∃ p, U.pkg? (U.vsName vs) = some p ∧ c ∈ p.cands := by
+  unfold Universe.candsOf Universe.pkgCands at h
+  have hm := (List.mem_filter.mp h).1
+  cases hp : U.pkg? (U.vsName vs) with
+  | none => rw [hp] at hm; cases hm
+  | some p => rw [hp] at hm; exact ⟨p, rfl, hm⟩
+
+theorem filterMap_length_all {α β : Type} (f : α → Option β) (l : List α) (h : (l.filterMap f).length = l.length) :
+    ∀ x ∈ l, ∃ y, f x = some y ∧ y ∈ l.filterMap f := by
+  induction l with
+  | nil => intro x hx; cases hx
+  | cons a l ih =>
+    cases ha : f a with
+    | none =>
+      simp only [List.filterMap_cons, ha, List.length_cons] at h
+      have := List.length_filterMap_le f l
+      omega
+    | some b =>
+      simp only [List.filterMap_cons, ha, List.length_cons, Nat.add_right_cancel_iff] at h
+      intro x hx
+      rcases List.mem_cons.mp hx with h1 | h1
+      · subst h1; exact ⟨b, ha, by simp [ha]⟩
+      · obtain ⟨y, hy, hm⟩ := ih h x h1
+        exact ⟨y, hy, by simp [ha, hm]⟩
+
+/-- the executable hypothesis yields a witness for `BestHyp` -/
+theorem bestHyp_of_applicable (U : Universe) (P : Problem) (hw : CandsKnown U) (hn : CandNames U) (fcs : List Nat)
+    (h : bestDirectApplicable U P = some fcs) :
+    (∃ sstar, Abs.BestHyp U P sstar) ∧ ∀ c ∈ fcs, ∃ r ∈ P.reqs, firstChoice U r = some c := by
+  unfold bestDirectApplicable at h
+  split at h
+  · next hall =>
+    simp only [] at h
+    split at h
+    · next hc =>
+      cases h
+      simp only [Bool.and_eq_true, beq_iff_eq] at hc
+      have hsome := filterMap_length_all (firstChoice U) P.reqs hc.1
+      have hsingle : ∀ r ∈ P.reqs, ∃ vs, r = .single vs := by
+        intro r hr
+        have := List.all_eq_true.mp hall r hr
+        cases r with
+        | single vs => exact ⟨vs, rfl⟩
+        | union u => cases this
+      have hfcs : ∀ c ∈ P.reqs.filterMap (firstChoice U), c ∈ U.allSolvs := by
+        intro c hcm
+        obtain ⟨r, hr, hfc⟩ := List.mem_filterMap.mp hcm
+        obtain ⟨vs, rfl⟩ := hsingle r hr
+        obtain ⟨p, hp, hcp⟩ := candsOf_sub U vs c (Abs.firstChoice_mem U vs c hfc)
+        exact hw _ p hp c hcp
+      obtain ⟨sstar, hv, hsub⟩ := (with_units_iff U P hw _ hfcs).mp hc.2
+      refine ⟨⟨sstar, hv, hsingle, ?_, ?_⟩, ?_⟩
+      · intro r hr
+        obtain ⟨c, hfc, hm⟩ := hsome r hr
+        exact ⟨c, hfc, hsub c hm⟩
+      · intro vs c hcm
+        obtain ⟨p, hp, hcp⟩ := candsOf_sub U vs c hcm
+        exact hn _ p hp c hcp
+      · intro c hcm
+        obtain ⟨r, hr, hfc⟩ := List.mem_filterMap.mp hcm
+        exact ⟨r, hr, hfc⟩
+    · cases h
+  · cases h
+
+/-- **C08 for every decision-guarded accepted history.** Whenever the hypothesis holds (decided exactly by
+    `bestDirectApplicable`), a history accepted by `Abs.runOptD` that ends in a valid solution ends in a solution that
+    contains the first-ranked candidate of every root requirement: conflicts below the direct requirements, learning and
+    backjumps past the root-requirement decisions never downgrade a direct requirement. -/
+theorem best_direct_accepted (U : Universe) (P : Problem) (hsoft : P.soft = []) (hw : CandsKnown U) (hn : CandNames U)
+    (fcs : List Nat) (happ : bestDirectApplicable U P = some fcs) (evs : List Abs.Event) (st : Abs.St)
+    (hrun : Abs.runOptD U P evs = some st) (sol : List Nat) (hsol : sol = st.trueSolvables)
+    (hvalid : Valid U P sol []) : ∀ c ∈ fcs, c ∈ sol := by
+  obtain ⟨⟨sstar, hb⟩, hf⟩ := bestHyp_of_applicable U P hw hn fcs happ
+  intro c hc
+  obtain ⟨r, hr, hfc⟩ := hf c hc
+  exact Abs.best_direct U P hsoft sstar hb evs st hrun sol hsol hvalid r hr c hfc
+
+/-- **C08 for the checked model** (all universes / problems without soft requirements / solver states / fuel). -/
+theorem best_direct_checked (U : Universe) (P : Problem) (fuel : Nat) (s : MDet.S) (sol : List Nat)
+    (hsoft : P.soft = []) (hw : CandsKnown U) (hn : CandNames U) (fcs : List Nat)
+    (happ : bestDirectApplicable U P = some fcs)
+    (h : (MDet.solveChecked U P fuel s).1 = .ok sol) : ∀ c ∈ fcs, c ∈ sol := by
+  obtain ⟨⟨sstar, hb⟩, hf⟩ := bestHyp_of_applicable U P hw hn fcs happ
+  intro c hc
+  obtain ⟨r, hr, hfc⟩ := hf c hc
+  exact MDet.solveChecked_best_direct U P fuel s sol sstar hsoft hb h r hr c hfc
+
+/-! Non-vacuity: package 1 = {10}, package 2 = {20 (rank 0), 21 (rank 1)}; the root requires package 1, 10 requires
+    package 2. The hypothesis holds with first choices [10]; the history below — the root requirement is settled by
+    propagation at level 1, then a decision on a requirement of solvable 10 — is accepted, and a decision on 10's
+    requirement *before* the root requirement has a true candidate is rejected by the explicit-first guard. -/
+def exU : Universe :=
+  { pkgs := [(1, { cands := [10] }), (2, { cands := [20, 21] })],
+    solvs := [(10, ⟨1, 0, .known [.single 2] []⟩), (20, ⟨2, 0, .known [] []⟩), (21, ⟨2, 1, .known [] []⟩)],
+    vsets := [(1, ⟨1, [10]⟩), (2, ⟨2, [20, 21]⟩)] }
+def exP : Problem := { reqs := [.single 1] }
+
+example : bestDirectApplicable exU exP = some [10] := by decide
+example : (Abs.runOptD exU exP
+    [.clause 0 .root [], .assign 0 true 1 0, .var 1 (.solvable 10), .clause 1 (.requires 0 (.single 1)) [[1]],
+     .assign 1 true 1 1, .var 2 (.solvable 20), .var 3 (.solvable 21), .clause 2 (.requires 1 (.single 2)) [[2, 3]],
+     .assign 2 true 2 2]).map (·.trueSolvables) = some [10, 20] := by decide
 
 end Resolvo.C08
